@@ -40,9 +40,11 @@ func newFlowBuffer(factor int) *flowBuffer {
 }
 
 func (b *flowBuffer) PutOne(ctx context.Context, m Completed) (chan RedisResult, error) {
+	verifYield(nil, "fb.put", b, m)
 	select {
 	case cmd := <-b.f:
 		cmd.one = m
+		verifYield(nil, "fb.put.send", b, m)
 		b.w <- cmd
 		return cmd.ch, nil
 	case <-ctx.Done():
@@ -51,9 +53,11 @@ func (b *flowBuffer) PutOne(ctx context.Context, m Completed) (chan RedisResult,
 }
 
 func (b *flowBuffer) PutMulti(ctx context.Context, m []Completed, resps []RedisResult) (chan RedisResult, error) {
+	verifYield(nil, "fb.put", b, verifFirst(m))
 	select {
 	case cmd := <-b.f:
 		cmd.multi, cmd.resps = m, resps
+		verifYield(nil, "fb.put.send", b, verifFirst(m))
 		b.w <- cmd
 		return cmd.ch, nil
 	case <-ctx.Done():
@@ -63,6 +67,7 @@ func (b *flowBuffer) PutMulti(ctx context.Context, m []Completed, resps []RedisR
 
 // NextWriteCmd should be only called by one dedicated thread
 func (b *flowBuffer) NextWriteCmd() (one Completed, multi []Completed, ch chan RedisResult) {
+	verifYield(nil, "fb.next", b, Completed{})
 	select {
 	case cmd := <-b.w:
 		one, multi, ch = cmd.one, cmd.multi, cmd.ch
@@ -74,6 +79,7 @@ func (b *flowBuffer) NextWriteCmd() (one Completed, multi []Completed, ch chan R
 
 // WaitForWrite should be only called by one dedicated thread
 func (b *flowBuffer) WaitForWrite() (one Completed, multi []Completed, ch chan RedisResult) {
+	verifYield(nil, "fb.wait", b, Completed{})
 	cmd := <-b.w
 	one, multi, ch = cmd.one, cmd.multi, cmd.ch
 	b.r <- cmd
@@ -82,6 +88,7 @@ func (b *flowBuffer) WaitForWrite() (one Completed, multi []Completed, ch chan R
 
 // NextResultCh should be only called by one dedicated thread
 func (b *flowBuffer) NextResultCh() (one Completed, multi []Completed, ch chan RedisResult, resps []RedisResult) {
+	verifYield(nil, "fb.result", b, Completed{})
 	select {
 	case cmd := <-b.r:
 		b.c = &cmd.ch
@@ -94,6 +101,7 @@ func (b *flowBuffer) NextResultCh() (one Completed, multi []Completed, ch chan R
 // FinishResult should be only called by one dedicated thread
 func (b *flowBuffer) FinishResult() {
 	if b.c != nil {
+		verifYield(nil, "fb.finish", b, Completed{})
 		b.f <- queuedCmd{ch: *b.c}
 		b.c = nil
 	}
